@@ -360,7 +360,7 @@ func (g *Gen) Value(t reflect.Type, depth int) reflect.Value {
 			case 8:
 				v.SetBytes([]byte([]string{" 1 ", "[1, 2]", "{ }", "\t\"a\" ", "[ ]", " null", "\n0", "{\"a\": 1}"}[r.Intn(8)]))
 			case 9:
-				v.SetBytes([]byte([]string{"{", "1 2", "tru", "\"a", "[1,]", "01"}[r.Intn(6)]))
+				v.SetBytes([]byte([]string{"{\"", "1 2", "trux", "\"a", "[1,]", "01"}[r.Intn(6)]))
 			case 1:
 				v.SetBytes([]byte{})
 			case 2:
